@@ -168,3 +168,57 @@ package responseassembler
 //@           result.index == n && result.sendBlock == (len(data) > 0 && skip < n && old(rc(trk(rb.linkTracker, rb.requestID), link)) == 0)
 //@   -- (nil-ness of a byte slice is modelled by len == 0, as everywhere in the engine)
 //@   ensures len(data) == 0 ==> !result.sendBlock && ltMissed[trk(rb.linkTracker, rb.requestID)][rb.requestID]
+//@ pred lastOp(rb *responseBuilder) := rb.operations[len(rb.operations) - 1]
+//@ func responseBuilder.SendResponse
+//@   requires rb != nil && rb.linkTracker != nil && invPLT(rb.linkTracker)
+//@   modifies rb.operations, alloc, ltMissed, rb.linkTracker.blockSentCount[*],
+//@            trk(rb.linkTracker, rb.requestID).missingBlocks[*], trk(rb.linkTracker, rb.requestID).linksWithBlocksTraversedByRequest[*],
+//@            trk(rb.linkTracker, rb.requestID).traversalsWithBlocksInProgress[*], allmaps(trk(rb.linkTracker, rb.requestID).missingBlocks[rb.requestID])
+//@   ensures invPLT(rb.linkTracker) && opsKept(rb, old(len(rb.operations)))
+//@   ensures dyntype(lastOp(rb)) == typetag("blockOperation")
+//@   ensures unbox(lastOp(rb), "blockOperation").data == data && unbox(lastOp(rb), "blockOperation").link == link && unbox(lastOp(rb), "blockOperation").requestID == rb.requestID
+//@   ensures let n := old(ite(rb.requestID in rb.linkTracker.blockSentCount, rb.linkTracker.blockSentCount[rb.requestID], 0)) + 1 ::
+//@           let skip := old(ite(rb.requestID in rb.linkTracker.skipFirstBlocks, rb.linkTracker.skipFirstBlocks[rb.requestID], 0)) ::
+//@           unbox(lastOp(rb), "blockOperation").index == n
+//@           && unbox(lastOp(rb), "blockOperation").sendBlock == (len(data) > 0 && skip < n && old(rc(trk(rb.linkTracker, rb.requestID), link)) == 0)
+
+//@ -- the final status: complete-full exactly when the request recorded no missing link, else complete-partial
+//@ func responseBuilder.setupFinishOperation
+//@   requires rb != nil && rb.linkTracker != nil && invPLT(rb.linkTracker)
+//@   modifies ltMissed, rb.linkTracker.dedupKeys[*], rb.linkTracker.altTrackers[*], rb.linkTracker.blockSentCount[*], rb.linkTracker.skipFirstBlocks[*],
+//@            trk(rb.linkTracker, rb.requestID).missingBlocks[*], trk(rb.linkTracker, rb.requestID).linksWithBlocksTraversedByRequest[*],
+//@            trk(rb.linkTracker, rb.requestID).traversalsWithBlocksInProgress[*]
+//@   ensures invPLT(rb.linkTracker) && result.requestID == rb.requestID
+//@   ensures result.status == ite(old(ltMissed[trk(rb.linkTracker, rb.requestID)][rb.requestID]), graphsync.RequestCompletedPartial, graphsync.RequestCompletedFull)
+//@ func responseBuilder.FinishRequest
+//@   requires rb != nil && rb.linkTracker != nil && invPLT(rb.linkTracker)
+//@   modifies rb.operations, ltMissed, rb.linkTracker.dedupKeys[*], rb.linkTracker.altTrackers[*], rb.linkTracker.blockSentCount[*], rb.linkTracker.skipFirstBlocks[*],
+//@            trk(rb.linkTracker, rb.requestID).missingBlocks[*], trk(rb.linkTracker, rb.requestID).linksWithBlocksTraversedByRequest[*],
+//@            trk(rb.linkTracker, rb.requestID).traversalsWithBlocksInProgress[*]
+//@   ensures invPLT(rb.linkTracker) && opsKept(rb, old(len(rb.operations)))
+//@   ensures dyntype(lastOp(rb)) == typetag("statusOperation") && unbox(lastOp(rb), "statusOperation").requestID == rb.requestID
+//@   ensures unbox(lastOp(rb), "statusOperation").status == result
+//@   ensures result == ite(old(ltMissed[trk(rb.linkTracker, rb.requestID)][rb.requestID]), graphsync.RequestCompletedPartial, graphsync.RequestCompletedFull)
+//@ func responseBuilder.setupFinishWithErrOperation
+//@   requires rb != nil && rb.linkTracker != nil && invPLT(rb.linkTracker)
+//@   modifies ltMissed, rb.linkTracker.dedupKeys[*], rb.linkTracker.altTrackers[*], rb.linkTracker.blockSentCount[*], rb.linkTracker.skipFirstBlocks[*],
+//@            trk(rb.linkTracker, rb.requestID).missingBlocks[*], trk(rb.linkTracker, rb.requestID).linksWithBlocksTraversedByRequest[*],
+//@            trk(rb.linkTracker, rb.requestID).traversalsWithBlocksInProgress[*]
+//@   ensures invPLT(rb.linkTracker) && result.requestID == rb.requestID && result.status == status
+//@ func responseBuilder.FinishWithError
+//@   requires rb != nil && rb.linkTracker != nil && invPLT(rb.linkTracker)
+//@   modifies rb.operations, ltMissed, rb.linkTracker.dedupKeys[*], rb.linkTracker.altTrackers[*], rb.linkTracker.blockSentCount[*], rb.linkTracker.skipFirstBlocks[*],
+//@            trk(rb.linkTracker, rb.requestID).missingBlocks[*], trk(rb.linkTracker, rb.requestID).linksWithBlocksTraversedByRequest[*],
+//@            trk(rb.linkTracker, rb.requestID).traversalsWithBlocksInProgress[*]
+//@   ensures invPLT(rb.linkTracker) && opsKept(rb, old(len(rb.operations)))
+//@   ensures dyntype(lastOp(rb)) == typetag("statusOperation") && unbox(lastOp(rb), "statusOperation").requestID == rb.requestID && unbox(lastOp(rb), "statusOperation").status == status
+//@ func responseBuilder.PauseRequest
+//@   requires rb != nil
+//@   modifies rb.operations
+//@   ensures opsKept(rb, old(len(rb.operations)))
+//@   ensures dyntype(lastOp(rb)) == typetag("statusOperation") && unbox(lastOp(rb), "statusOperation").requestID == rb.requestID && unbox(lastOp(rb), "statusOperation").status == graphsync.RequestPaused
+//@ func responseBuilder.SendExtensionData
+//@   requires rb != nil
+//@   modifies rb.operations
+//@   ensures opsKept(rb, old(len(rb.operations)))
+//@   ensures dyntype(lastOp(rb)) == typetag("extensionOperation") && unbox(lastOp(rb), "extensionOperation").requestID == rb.requestID && unbox(lastOp(rb), "extensionOperation").extension == extension
